@@ -59,6 +59,25 @@ def receipts_harness(prop, tier, seed, cov, log):
         if r.returncode != 0 or not lines:
             path = L.write_replay(prop, 'receipts-harness', {'property': prop, 'broken': f'go/cmd/receipts ({exe})'}, [r.stderr[-3000:]])
             return [(path, ' no-failing-input-found')]
+        # the validity model (Model/Receipt.lean) on every accepted triple: forwarded as often as accepted iff well formed
+        triples = [l for l in r.stdout.split('\n') if l.startswith('RTRIPLE ')]
+        if prop == 'C19' and triples:
+            d = subprocess.run([L.DRIVER], input='\n'.join(triples) + '\n', capture_output=True, text=True)
+            cov['receipt_triples_judged_by_the_model'] = cov.get('receipt_triples_judged_by_the_model', 0) + len(triples)
+            cov['receipt_triples_agree'] = cov.get('receipt_triples_agree', 0) + d.stdout.count('T ok')
+            kinds = cov.setdefault('receipt_triple_kinds', {})
+            for m in re.finditer(r'kind=(\S+)', '\n'.join(triples)): kinds[m.group(1)] = kinds.get(m.group(1), 0) + 1
+            for l in d.stdout.split('\n'):
+                if not l.startswith('M '): continue
+                cause = l.split()[3]
+                if cause in seen: continue
+                seen.add(cause)
+                k = [e for e in known if e['cause'] == cause]
+                if k:
+                    print(f'KNOWN-FINDING: property={prop} {k[0]["what"]} [{cause}]'); continue
+                path = L.write_replay(prop, cause, {'property': prop, 'cause': cause, 'seed': seed, 'tier': tier,
+                                      'replay': f'.cache/bin/{exe} -seed {seed} -rounds {nrounds} -per 80 | grep RTRIPLE | lean/.lake/build/bin/driver'}, [l[:3000]])
+                viol.append((path, ''))
         for l in lines:
             verdict = l.split()[1]
             if verdict == 'ok' or verdict in seen: continue
